@@ -137,6 +137,12 @@ func callName(cc *ssa.CallCommon) string {
 // with the given suffix (e.g. ".LogPin", "api.PinCid").
 func nameMatches(name string, pats ...string) bool {
 	for _, p := range pats {
+		if strings.HasPrefix(p, "=") { // exact name
+			if name == p[1:] {
+				return true
+			}
+			continue
+		}
 		if name == p || strings.HasSuffix(name, p) {
 			return true
 		}
